@@ -84,8 +84,9 @@ fn panic_text(e: Box<dyn std::any::Any + Send>) -> String {
 
 // ---------------------------------------------------------------- dedup (C10)
 
-/// {"cmd":"dedup","w":W,"arrivals":[{"ts":f64 seconds,"frame":hex,"id":n}],"cap":C (optional)}
-/// Every reception carries its identifier in SensorMetadata.serial.
+/// {"cmd":"dedup","w":W,"arrivals":[{"ts":f64 seconds,"frame":hex,"id":n,"ids":[n,..] (optional)}],"cap":C (optional)}
+/// Every reception carries its identifier in SensorMetadata.serial; an arrival with "ids" carries
+/// several receptions (one SensorMetadata each).
 /// Output: for every arrival the list of records emitted while it was processed.
 /// "cap": capacity of the output channel (default n+1, never full).  With a small
 /// capacity the consumer side below exerts back-pressure: after each arrival it
@@ -116,18 +117,26 @@ async fn dedup(req: &Value) -> Value {
             hex::decode(a["frame"].as_str().unwrap_or("")).unwrap_or_default();
         let ts = a["ts"].as_f64().unwrap_or(0.0);
         let id = a["id"].as_u64().unwrap_or(k as u64);
+        // "ids": an arrival that carries several receptions (what the SeRo source hands over)
+        let ids: Vec<u64> = match a["ids"].as_array() {
+            Some(v) => v.iter().filter_map(|x| x.as_u64()).collect(),
+            None => vec![id],
+        };
         let msg = TimedMessage {
             timestamp: ts,
             frame,
             message: None,
-            metadata: vec![SensorMetadata {
-                system_timestamp: ts,
-                gnss_timestamp: None,
-                nanoseconds: None,
-                rssi: None,
-                serial: id,
-                name: None,
-            }],
+            metadata: ids
+                .iter()
+                .map(|&serial| SensorMetadata {
+                    system_timestamp: ts,
+                    gnss_timestamp: None,
+                    nanoseconds: None,
+                    rssi: None,
+                    serial,
+                    name: None,
+                })
+                .collect(),
             decode_time: None,
         };
         // in a burst, try_send: `send().await` is subject to tokio's cooperative budget and
@@ -504,6 +513,12 @@ fn key_of(name: &str) -> Option<Event> {
         "PageDown" => KeyCode::PageDown,
         "End" => KeyCode::End,
         "Tab" => KeyCode::Tab,
+        "Delete" => KeyCode::Delete,
+        "Insert" => KeyCode::Insert,
+        "Left" => KeyCode::Left,
+        "Right" => KeyCode::Right,
+        "BackTab" => KeyCode::BackTab,
+        "F1" => KeyCode::F(1),
         "Error" => return Some(Event::Error),
         s if s.starts_with("Tick:") => {
             return s[5..].parse::<u16>().ok().map(Event::Tick);
